@@ -9,6 +9,7 @@ mod fam_path;
 mod fam_signed;
 mod fam_rules;
 mod fam_direct;
+mod fam_obs;
 
 pub type O = Out<BufWriter<File>>;
 
@@ -25,6 +26,11 @@ fn replay_one(o: &mut O, line: &str) {
         "reqops" => fam_direct::replay_reqops(o, &f),
         "hdrval" => fam_direct::replay_hdrval(o, &f),
         "errtab" | "errconv" => fam_direct::errtab(o),
+        "c17" => fam_obs::replay_c17(o, &f),
+        "c18" => {
+            let p = std::env::args().nth(4).unwrap_or_default();
+            fam_obs::replay_c18(o, &f, &p)
+        }
         _ => {
             eprintln!("unknown replay kind {}", kind);
             std::process::exit(2);
@@ -67,6 +73,9 @@ fn main() {
         "reqops" => fam_direct::reqops(&mut o, tier, &mut rng),
         "hdrval" => fam_direct::hdrval(&mut o, tier, &mut rng),
         "errtab" => fam_direct::errtab(&mut o),
+        "c17" => fam_obs::c17(&mut o, tier, &mut rng),
+        "c18" => fam_obs::c18(&mut o, tier, &mut rng, &args[4]),
+        "c18child" => fam_obs::c18child(&mut o, tier.parse().unwrap_or(1), &args[5]),
         "replay" => {
             let line = args[5..].join(" ");
             replay_one(&mut o, &line);
